@@ -1189,9 +1189,9 @@ func c08LookupKey(w *World, r *Report) {
 // only after the more specific one found nothing and allowed backtracking.
 func c02Specificity(w *World, r *Report, ra *repoAnchors) {
 	ri := r.Rule("C02.4", 3, "the tree lookup prefers static text over a wildcard over a catch-all, and tries the next alternative only after the previous one found nothing and allowed backtracking")
-	fn := treeMethod(w, ra, "findNode")
+	fn := treeRecursive(w, ra, "Find")
 	if fn == nil {
-		r.Undecided(ri, "tree method findNode not found")
+		r.Undecided(ri, "the recursive lookup behind Tree.Find was not found")
 		return
 	}
 	r.Analysed(w.FnName(fn))
@@ -1302,9 +1302,9 @@ func c02Specificity(w *World, r *Report, ra *repoAnchors) {
 // that alternative found the node; the next alternative must start from the parameter again.
 func c03CapturesSurvive(w *World, r *Report, ra *repoAnchors) {
 	ri := r.Rule("C03.6", 2, "within one lookup step every alternative (static child, wildcard, catch-all) is tried with the captured values this step received, never with what a failed earlier alternative returned")
-	fn := treeMethod(w, ra, "findNode")
+	fn := treeRecursive(w, ra, "Find")
 	if fn == nil || len(fn.Params) < 3 {
-		r.Undecided(ri, "tree method findNode not found")
+		r.Undecided(ri, "the recursive lookup behind Tree.Find was not found")
 		return
 	}
 	r.Analysed(w.FnName(fn))
